@@ -127,9 +127,10 @@ func sameResults(a, b []model.ProviderResult) bool {
 // standard text) and however the error is wrapped.
 func c19Errors(r *simkit.Run) {
 	for _, status := range []int{0, 400, 404, 429, 500, 503, 599, 999} {
-		for _, msg := range []string{"", "plain words", "with \"quotes\" and \n newline", strings.Repeat("long ", 400)} {
+		for mi, msg := range []string{"", "plain words", "with \"quotes\" and \n newline", strings.Repeat("long ", 400), ""} {
 			var inner error
-			if msg != "" {
+			if msg != "" || mi == 4 {
+				// (the last one: an error whose message is the empty string)
 				inner = errors.New(msg)
 			}
 			var e error = apierror.New(inner, status)
@@ -141,7 +142,7 @@ func c19Errors(r *simkit.Run) {
 				}
 				back := apierror.DecodeError(apierror.EncodeError(e))
 				if back == nil {
-					if e.Error() != "" {
+					if e.Error() != "" || status != 0 {
 						r.Violate("c19.apierror", "error (status %d, %q, wrap %d) is nil after encode/decode", status, e.Error(), wrap)
 					}
 					continue
